@@ -117,13 +117,32 @@ def entry_by_jump_programs(rng):
     return out
 
 
+def long_chain_program(rng):
+    """A long pipeline written bottom-up (every stage jumps to the stage printed above it) with a
+    register set before the chain and read only after it: liveness needs about one sweep per two
+    stages - far more than any ordinary program - before the facts stop changing."""
+    n = rng.randrange(66, 100)
+    keep = rng.choice(["t1", "t2", "s1"])
+    L = ["main:", "    li t0, 0", f"    li {keep}, 42", f"    j stage{n}", "stage1:", f"    add a0, t0, {keep}", "    li a7, 1",
+         "    ecall", "    li a7, 10", "    ecall"]
+    for i in range(2, n + 1):
+        L += [f"stage{i}:", "    addi t0, t0, 1", f"    j stage{i - 1}"]
+    return "\n".join(L) + "\n"
+
+
 def handler_layouts(rng):
     """Where an interrupt-vector installation (`la rX, h` + `csrrw _, utvec, rX`) can stand: on the
     program's main path, in a called function, after a return / behind a jump (code nothing
     reaches), inside another handler (chaining). The installed label is a function in every case."""
     utvec = rng.choice(["5", "utvec"])
     r = rng.choice(["t0", "t1", "a2"])
-    inst = [f"    la {r}, H", f"    csrrw zero, {utvec}, {r}"]
+    # the installing instruction in every spelling: result discarded, old value swapped into the
+    # same register, old value into another register, the csrw pseudo-instruction
+    def install(label):
+        form = rng.choice([f"csrrw zero, {utvec}, {r}", f"csrrw {r}, {utvec}, {r}", f"csrrw t5, {utvec}, {r}",
+                           f"csrw {utvec}, {r}", f"csrrw x0, {utvec}, {r}"])
+        return [f"    la {r}, {label}", "    " + form]
+    inst = install("H")
     body = lambda n: [f"{n}:", f"    addi s{rng.randrange(2, 6)}, zero, {rng.randrange(1, 9)}", "    uret"]
     exit_ = ["    li a7, 10", "    ecall"]
     out = []
@@ -136,10 +155,13 @@ def handler_layouts(rng):
     # after the return of a helper
     out.append(["main:", "    jal helper"] + exit_ + ["helper:", "    li a0, 0", "    ret"] + inst + ["    ret"] + body("H"))
     # chaining: a handler installs the next one
-    out.append(["main:", f"    la {r}, G", f"    csrrw zero, {utvec}, {r}", "    jal helper"] + exit_ +
+    out.append(["main:"] + install("G") + ["    jal helper"] + exit_ +
                ["helper:", "    li a0, 0", "    ret", "G:"] + inst + ["    uret"] + body("H"))
     # two installations of the same and of different handlers
-    out.append(["main:"] + inst + [f"    la {r}, G", f"    csrrw zero, {utvec}, {r}"] + inst + exit_ + body("G") + body("H"))
+    out.append(["main:"] + inst + install("G") + install("H") + exit_ + body("G") + body("H"))
+    # every spelling of the installation once, on the main path
+    for form in (f"csrrw zero, {utvec}, {r}", f"csrrw {r}, {utvec}, {r}", f"csrrw t5, {utvec}, {r}", f"csrw {utvec}, {r}"):
+        out.append(["main:", f"    la {r}, H", "    " + form] + exit_ + body("H"))
     # the handler is also an ordinary call target
     out.append(["main:"] + inst + ["    jal H"] + exit_ + ["H:", "    addi a0, a0, 1", "    ret"])
     return ["\n".join(p) + "\n" for p in out]
@@ -271,7 +293,7 @@ def alloca_programs(rng, n=6):
 
 
 def gen_programs(rng, n, sloppy_choices=(0, 0.1, 0.3), multi=0.15):
-    out = list(CORPUS) + branch_matrix() + ecall_matrix() + arith_matrix(rng) + alloca_programs(rng) + handler_layouts(rng) + early_out_programs(rng) + entry_by_jump_programs(rng)
+    out = list(CORPUS) + branch_matrix() + ecall_matrix() + arith_matrix(rng) + alloca_programs(rng) + handler_layouts(rng) + early_out_programs(rng) + entry_by_jump_programs(rng) + [long_chain_program(rng)]
     for _ in range(max(4, n // 10)):
         out.append(handler_program(rng))
         out.append(backward_layout(rng))
